@@ -386,3 +386,35 @@ def tab12(units, R):
             R.ob('TAB12', fn, x, '%s->%s used only after a kind test' % (b['n'], x['f']), ok, why,
                  key='payload:%s->%s' % (b['n'], x['f']))
     R.floor('TAB12', 'payload uses of looked-up nodes', n, 8)
+
+
+# ---- TAB13 string-scanner agreement ----------------------------------------------------------------
+
+def tab13(units, R):
+    """A scanner that finds the end of a string literal must consume the byte after a backslash whatever it
+    is: the backslash test may not be conjoined with an equality test of the following byte against a
+    particular (non-NUL) character."""
+    u = units['cJSON.c']
+    n = 0
+    for fn in u.function_list:
+        for x in fn.nodes():
+            if x.get('k') != 'bin' or x['op'] != '&&':
+                continue
+            par = fn.parents().get(x['id'])
+            if par is not None and par.get('k') == 'bin' and par['op'] == '&&':
+                continue
+            parts = [cmp_parts(p) for p in _flatten(x, '&&')]
+            bs = [p for p in parts if p and p[1] == '==' and p[2] == 92 and p[0].get('k') in ('idx', 'un')]
+            if not bs:
+                continue
+            n += 1
+            bad = [p for p in parts if p and p not in bs and p[1] == '==' and p[2] != 0 and p[0].get('k') in ('idx', 'un')]
+            R.ob('TAB13', fn, x, 'backslash test is not tied to one particular following byte', not bad,
+                 'escape pair consumed whatever the second byte is' if not bad else
+                 'backslash only honoured when followed by %s: an escaped backslash before a quote ends the string early'
+                 % expr_str(bad[0][0]) + ' == ' + repr(chr(bad[0][2])), key='backslash-pair')
+        # scanners written with nested ifs: `if (p[0] == '\\\\')` is fine by construction
+    scanners = [fn for fn in u.function_list if any(
+        (cmp_parts(x) or (None, None, None))[2] == 92 for x in fn.nodes() if x.get('k') == 'bin')]
+    R.floor('TAB13', 'functions testing for a backslash', len(scanners), 3)
+    R.note('TAB13: %d conjunctions with a backslash test; scanners: %s' % (n, [f.name for f in scanners]))
